@@ -292,6 +292,7 @@ func (e *Exec) constValue(c *ssa.Const) Value {
 }
 
 func (e *Exec) execFrom(fr *frame, b *ssa.BasicBlock, prev *ssa.BasicBlock) Value {
+	skipPhis := false
 	for {
 		var next *ssa.BasicBlock
 		// phis first (simultaneous)
@@ -301,6 +302,10 @@ func (e *Exec) execFrom(fr *frame, b *ssa.BasicBlock, prev *ssa.BasicBlock) Valu
 			phi, ok := ins.(*ssa.Phi)
 			if !ok {
 				break
+			}
+			if skipPhis {
+				nphi++
+				continue
 			}
 			k := -1
 			for i, p := range b.Preds {
@@ -315,9 +320,12 @@ func (e *Exec) execFrom(fr *frame, b *ssa.BasicBlock, prev *ssa.BasicBlock) Valu
 			phivals = append(phivals, e.get(fr, phi.Edges[k]))
 			nphi++
 		}
-		for i := 0; i < nphi; i++ {
-			fr.regs[b.Instrs[i].(*ssa.Phi)] = phivals[i]
+		if !skipPhis {
+			for i := 0; i < nphi; i++ {
+				fr.regs[b.Instrs[i].(*ssa.Phi)] = phivals[i]
+			}
 		}
+		skipPhis = false
 		for _, ins := range b.Instrs[nphi:] {
 			e.steps++
 			if e.steps > e.maxSteps {
@@ -327,6 +335,13 @@ func (e *Exec) execFrom(fr *frame, b *ssa.BasicBlock, prev *ssa.BasicBlock) Valu
 			switch i := ins.(type) {
 			case *ssa.If:
 				c := e.get(fr, i.Cond).(*Term)
+				if !c.konst {
+					if j, ok := e.tryIfConvert(fr, b, c); ok {
+						next = j
+						skipPhis = true
+						break
+					}
+				}
 				taken := e.branchAt(fr, i, c)
 				if taken {
 					next = b.Succs[0]
@@ -538,6 +553,9 @@ func (e *Exec) loadFrom(p Value, t types.Type) Value {
 func (e *Exec) storeTo(p Value, v Value) {
 	switch c := p.(type) {
 	case *SymPtr:
+		if e.ifc != nil {
+			panic(localFail{"store through symbolic pointer in if-converted side"})
+		}
 		if nv, isT := v.(*Term); isT {
 			ok := true
 			for _, cell := range c.cells {
@@ -556,6 +574,9 @@ func (e *Exec) storeTo(p Value, v Value) {
 		e.store(e.derefCell(p), v)
 		return
 	case *UPtr:
+		if e.ifc != nil {
+			panic(localFail{"unsafe store in if-converted side"})
+		}
 		e.unsafeStore(c, v)
 		return
 	}
